@@ -583,6 +583,18 @@ theorem acceptance_port_no_unrequested_answer (c : CaseCfg) (steps : List Step) 
   omega
 
 
+/-- non-vacuity: plain queuer, one worker, factory queue limit 1 / Newest; three port-carrying dispatches: the first is
+handed to the worker (accepted), the second is queued (accepted), the third is shed (handed back) -/
+def portDemoCase : CaseCfg :=
+  { cfg := { router := .q, prioQueue := false, hasHandler := true, table := [], hasCC := false }, n := 1,
+    disc := some (1, .newest), rl := none }
+def portDemoSteps : List Step :=
+  [⟨.dispatch 5 1 0 none true, 1000000, 2000000, 3000000⟩, ⟨.dispatch 6 1 0 none true, 3000000, 4000000, 5000000⟩,
+   ⟨.dispatch 7 1 0 none true, 5000000, 6000000, 7000000⟩]
+example : (((init portDemoCase).runSteps portDemoSteps).env.log.filterMap fun | .reply i b => some (i, b) | _ => none)
+    = [(5, false), (6, false), (7, true)] := by decide +kernel
+example : ((init portDemoCase).runSteps portDemoSteps).env.log.countP (isAnswerEv 7) = 1 := by decide +kernel
+
 end C13
 
 #print axioms C13.reject_log
